@@ -1107,6 +1107,14 @@ def get_command_instance(
     if condition:
         raise UnknownCommand(name)
     condition = (
+        not isinstance(gl[cname], type)
+        or not issubclass(gl[cname], Command)
+        or not hasattr(gl[cname], "args_definition")
+    )
+    if condition:
+        # base classes and exceptions of this module are not commands
+        raise UnknownCommand(name)
+    condition = (
         checkexists
         and gl[cname].extension
         and gl[cname].extension not in RequireCommand.loaded_extensions
